@@ -163,7 +163,7 @@ theorem exception_nonempty (env : Env) (present : List Comp) (r : Rule) (es : Li
 
 /-- `validation`, second half: a return value that is not a response is an exception recorded against the rule -/
 theorem bad_return_rejected (env : Env) (present : List Comp) (r : Rule) (h : Invoked present r)
-    (ha : r.act = .retOther) : classify env present r = .exception [.badReturn] := by
+    (truthy : Bool) (ha : r.act = .retOther truthy) : classify env present r = .exception [.badReturn] := by
   rw [classify_invoked env present r h]
   simp [invoke, ha, finalOfProc]
 
@@ -360,6 +360,63 @@ theorem metadata_merged (env : Env) (seed : List Comp) (rules : List Rule) (h : 
     (run env seed rules).mdKeys = (finals env seed rules).foldl mdkStep [] := by
   rw [run_eq env seed rules h, applyAll_metadata, applyAll_mdKeys]
   simp [St.init]
+
+/-! ### one evaluator object over a history of uses (entered again, preprocess() before process(), the same
+bound method registered several times, several evaluations in a row) -/
+
+/-- registration is idempotent: the observers of a broker are a set, so registering a callable that is already
+registered changes neither the set nor what is dispatched, and a registered callable fires exactly once per component -/
+theorem registration_idempotent (o : ObsId) (l : List ObsId) (hnd : l.Nodup) :
+    addObserver o (addObserver o l) = addObserver o l ∧ (addObserver o l).Nodup ∧ (addObserver o l).count o = 1 ∧
+    ∀ st r, dispatch (addObserver evalObs (addObserver evalObs l)) st r = dispatch (addObserver evalObs l) st r ∧
+            dispatch (addObserver evalObs l) st r = observe st r := by
+  refine ⟨addObserver_idem o l, addObserver_nodup o l hnd, addObserver_count o l hnd, ?_⟩
+  intro st r
+  rw [addObserver_idem]
+  exact ⟨rfl, dispatch_once _ _ _ (addObserver_nodup _ _ hnd) (addObserver_mem _ _)⟩
+
+/-- every history of register / run operations on one evaluator that starts by registering (`with e:`,
+`e.process(...)`, `e.preprocess()`) leaves the evaluator in the state of ONE pass over the concatenated run orders
+— however often it is registered again in between -/
+theorem history_is_one_run (env : Env) (seed : List Comp) (ops : List Op) :
+    (runHistory env seed (.register evalObs :: ops)).st = (allFired ops).foldl (stepG env) (St.init seed) := by
+  unfold runHistory
+  simp only [List.foldl_cons, applyOp]
+  exact foldl_applyOp env ops ⟨St.init seed, addObserver evalObs []⟩ (addObserver_nodup evalObs [] List.nodup_nil)
+    (addObserver_mem evalObs [])
+
+/-- hence, when no rule is fired twice over the whole history (evaluations of disjoint rule sets, any number of
+re-entries), every rule is accounted for exactly as in a single evaluation: `outcome_exclusive` carries over -/
+theorem history_reported_once (env : Env) (seed : List Comp) (ops : List Op) (rules : List Rule)
+    (hall : allFired ops = rules.map (·, true)) (h : Fresh seed rules)
+    (r : Rule) (f : Final) (hmem : (r, f) ∈ finals env seed rules) :
+    tally (runHistory env seed (.register evalObs :: ops)).st r.id = f.tally := by
+  rw [history_is_one_run, hall, foldl_stepG_all_in_graph]
+  exact outcome_exclusive env seed rules h r f hmem
+
+/-- the full statement: in every history whose single runs are proper graphs, nothing is listed twice -/
+def HistoryReportedOnce : Prop :=
+  ∀ (env : Env) (seed : List Comp) (ops : List Op) (id : Comp),
+    (∀ fired, Op.run fired ∈ ops → (fired.map (·.1.id)).Nodup ∧ ∀ f ∈ fired, f.1.id ∉ seed) →
+    let t := tally (runHistory env seed (.register evalObs :: ops)).st id
+    t.results + t.skips + t.metadata + t.mdKeys ≤ 1
+
+def rerunRule : Rule :=
+  ⟨1, "pkg.mod.report".toList, some "mod".toList, [], none, [], [], [], true, .ret c_make_fail (.str "K".toList) []⟩
+
+set_option maxRecDepth 100000 in
+/-- … is false of the current code: run_components fires the observers for every component of the run order, also
+for those already in the broker, and the evaluator's observer handles whatever is in the broker — a second
+evaluation that meets an already evaluated rule lists it again (known finding rerun-reobserves) -/
+theorem history_rerun_witness : ¬ HistoryReportedOnce := by
+  intro h
+  have := h ⟨cfg, 65535, false, fun _ => []⟩ [] [.run [(rerunRule, true)], .run [(rerunRule, true)]] 1 (by
+    intro fired hf
+    simp only [List.mem_cons, Op.run.injEq, List.not_mem_nil, or_false, or_self] at hf
+    subst hf
+    exact ⟨by decide, by intro f hf; simp⟩)
+  revert this
+  decide
 
 /-! ### get_response -/
 
@@ -560,7 +617,7 @@ def exRules : List Rule :=
   [exRule 2 [0] true (.ret c_make_fail (.str "K".toList) [("a".toList, .int 1)]),
    exRule 3 [0] true (.ret c_make_pass (.str "K".toList) []),
    exRule 4 [1] true (.ret c_make_pass (.str "K".toList) []),
-   exRule 5 [0] true .retOther,
+   exRule 5 [0] true (.retOther false),
    exRule 6 [0] true (.ret c_make_info .none []),
    exRule 7 [0] true (.raise .skip),
    exRule 8 [0] false (.ret c_make_info (.str "I".toList) []),
@@ -577,7 +634,7 @@ example : ((run exEnv [0] exRules).results.map (fun kv => (String.ofList kv.1, k
     [("rule", [2]), ("pass", [3]), ("none", [9])] := by decide
 example : lookup sNoneT (ofTypes (getResponse (run exEnv [0] exRules)) false []) = none := by
   rw [formatter_filter_default]; simp
-example : Invoked [0] (exRule 5 [0] true .retOther) := ⟨by decide, by decide, by decide⟩
+example : Invoked [0] (exRule 5 [0] true (.retOther false)) := ⟨by decide, by decide, by decide⟩
 example : ignored [0] (exRule 4 [1] true .retNone) = false ∧
     missingDeps [0] (exRule 4 [1] true .retNone) = some ⟨[1], []⟩ := by decide
 
